@@ -106,8 +106,20 @@ theorem invW_detect {s : State} (hs : InvW s) (e : Err) : InvW (detect s e) := b
   · rename_i hn
     exact invW_observe (invW_setCell hs e) hn rfl
 
+theorem invW_clientTail {s : State} (hs : InvW s) (r : Option QErr) : InvW (clientTail s r) := by
+  unfold clientTail
+  cases r with
+  | none => exact invW_detect hs _
+  | some q => exact invW_detect (invW_detect hs _) _
+
 theorem invW_dstep {s : State} (hs : InvW s) (rf : Bool) (op : DOp) : InvW (dstep rf s op) := by
   cases op with
+  | bidi r =>
+    simp only [dstep]
+    split
+    · exact invW_clientTail hs r
+    · exact invW_clientTail hs r
+    · exact hs
   | poll =>
     simp only [dstep]
     split
@@ -196,11 +208,25 @@ theorem run_append (rf : Bool) (s : State) (a b : List TaskId) :
 
 theorem cell_observe {s : State} {e e' : Err} (h : s.cell = some e) : (observe s e').cell = some e := h
 
+theorem cell_detect {s : State} {e : Err} (h : s.cell = some e) (e' : Err) :
+    (detect s e').cell = some e := by
+  unfold detect; split <;> simp_all [observe, retHandled]
+
+theorem cell_clientTail {s : State} {e : Err} (h : s.cell = some e) (r : Option QErr) :
+    (clientTail s r).cell = some e := by
+  unfold clientTail
+  cases r with
+  | none => exact cell_detect h _
+  | some q => exact cell_detect (cell_detect h _) _
+
 theorem cell_dstep {s : State} {e : Err} (h : s.cell = some e) (rf : Bool) (op : DOp) :
     (dstep rf s op).cell = some e := by
-  cases op <;> simp only [dstep] <;> split <;>
-    simp_all [pceFirst, pceSecond, detect, chk, reg, observe, retHandled] <;>
-    (repeat' split) <;> simp_all
+  cases op with
+  | bidi r => simp only [dstep]; split <;> first | exact cell_clientTail h r | exact h
+  | poll | pce | det _ | park =>
+    simp only [dstep] <;> split <;>
+      simp_all [pceFirst, pceSecond, detect, chk, reg, observe, retHandled] <;>
+      (repeat' split) <;> simp_all
 
 theorem cell_sstep {s : State} {e : Err} (h : s.cell = some e) (i : Nat) :
     (sstep s i).cell = some e := by
@@ -220,13 +246,31 @@ theorem cell_run {s : State} {e : Err} (h : s.cell = some e) (rf : Bool) (sched 
   | nil => exact h
   | cons l ls ih => exact ih (cell_step h rf l)
 
+/-- with an error handled, `handle_connection_error` only returns it. -/
+theorem detect_handled {s : State} {h : CErr} (hh : s.handled = some h) (e : Err) :
+    detect s e = retHandled s h := by
+  unfold detect; rw [hh]
+
+theorem handled_clientTail {s : State} {h : CErr} (hh : s.handled = some h) (r : Option QErr) :
+    (clientTail s r).handled = some h := by
+  unfold clientTail
+  cases r with
+  | none => simp only []; rw [detect_handled hh]; exact hh
+  | some q =>
+    simp only []
+    have h1 : (detect s (.quic q)).handled = some h := by rw [detect_handled hh]; exact hh
+    rw [detect_handled h1]; exact h1
+
 theorem handled_step {s : State} (hs : InvW s) {h : CErr} (hh : s.handled = some h) (rf : Bool)
     (l : TaskId) : (step rf s l).handled = some h := by
   have hpc : s.pc ≠ .mid := fun hp => by have := hs.pc_handled (Or.inl hp); simp_all
   cases l with
   | drv op =>
-    cases op <;> simp only [step, dstep] <;> split <;>
-      simp_all [pceFirst, detect, retHandled]
+    cases op with
+    | bidi r => simp only [step, dstep]; split <;> first | exact handled_clientTail hh r | exact hh
+    | poll | pce | det _ | park =>
+      simp only [step, dstep] <;> split <;>
+        simp_all [pceFirst, detect, retHandled]
   | str i =>
     simp only [step, sstep]
     repeat' split
@@ -251,11 +295,42 @@ structure InvT (s : State) : Prop where
 theorem invT_init (todo : List (List Err)) : InvT (init todo) := by
   constructor <;> simp [init]
 
+/-- `handle_connection_error` ends the poll with an error: the driver is idle and not parked. -/
+theorem detect_idle (s : State) (e : Err) : (detect s e).pc = .idle ∧ (detect s e).parked = s.parked := by
+  unfold detect; split <;> simp [retHandled, observe]
+
+theorem clientTail_idle (s : State) (r : Option QErr) :
+    (clientTail s r).pc = .idle ∧ (clientTail s r).parked = s.parked := by
+  unfold clientTail
+  cases r with
+  | none => exact detect_idle s _
+  | some q =>
+    exact ⟨(detect_idle _ _).1, (detect_idle _ _).2.trans (detect_idle _ _).2⟩
+
+theorem invT_of_idle_not_parked {s : State} (hp : s.pc = .idle) (hnp : s.parked = false) : InvT s := by
+  constructor <;> simp [hp, hnp]
+
 theorem invT_dstep {s : State} (hs : InvT s) (op : DOp) : InvT (dstep true s op) := by
   have h1 := hs.parked_idle
   have h2 := hs.waker_or_woken
   have h3 := hs.pending_wake
   cases op with
+  | bidi r =>
+    simp only [dstep]
+    split
+    · rename_i hp
+      have hnp : s.parked = false := by
+        cases hpk : s.parked with
+        | false => rfl
+        | true => have := h1 hpk; simp_all
+      exact invT_of_idle_not_parked (clientTail_idle s r).1 ((clientTail_idle s r).2.trans hnp)
+    · rename_i hp
+      have hnp : s.parked = false := by
+        cases hpk : s.parked with
+        | false => rfl
+        | true => have := h1 hpk; simp_all
+      exact invT_of_idle_not_parked (clientTail_idle s r).1 ((clientTail_idle s r).2.trans hnp)
+    · exact hs
   | poll =>
     simp only [dstep]
     split
@@ -417,6 +492,16 @@ theorem invP_step {s : State} (hw : InvW s) (hp : InvP s) (rf : Bool) (l : TaskI
     rw [this.1] at h; rw [this.2.1, this.2.2]; exact hp h
   | drv op =>
     cases op with
+    | bidi r =>
+      simp only [step, dstep]
+      split
+      · rename_i hpc
+        have hnp := not_parked_of_pc hp (by rw [hpc]; simp)
+        intro h; rw [(clientTail_idle s r).2, hnp] at h; cases h
+      · rename_i hpc
+        have hnp := not_parked_of_pc hp (by rw [hpc]; simp)
+        intro h; rw [(clientTail_idle s r).2, hnp] at h; cases h
+      · exact hp
     | poll =>
       simp only [step, dstep]
       split
